@@ -106,14 +106,14 @@ def findAlias (env : AEnv) (s : VSt) (typeName : String) (knownQname : String :=
   | some m =>
     let (name, qname) := searchAliasInImports m.qualifiedImports typeName
     if name != "" && qname != "" then .ok (name, qname)
+    -- the caller already knows the qualified name of the definition: the name is not an alias
+    else if knownQname != "" then .ok (lastD "" (splitDot knownQname), knownQname)
     else
       match assocGet? env.aliases typeName with
       | none => .ok (name, qname)
       | some [q] => .ok (lastD "" (splitDot q), q)
       | some qs =>
-        -- several definitions of that name: the qualified name the caller already knows, if it is one of them;
-        -- else the first one, in sorted order, whose path contains the current module's name
-        if qs.contains knownQname then .ok (lastD "" (splitDot knownQname), knownQname) else
+        -- several definitions of that name: the first one, in sorted order, whose path contains the current module's name
         let step := fun (acc : String × String × Bool) (aq : String) =>
           if acc.2.2 then acc
           else
@@ -979,7 +979,8 @@ def enterClassdef (env : AEnv) (name fullname : String) (bases removed : List Ba
   let supers ← (bases.filter (·.hasFullname)).mapM fun b => (do
     let n := lastD "" (splitDot b.fullname)
     if (assocGet? env.aliases n).isSome then
-      match findAlias env s n b.fullname with
+      -- a superclass that mypy resolved to a class definition keeps its qualified name (after the module's imports)
+      match findAlias env s n (if b.typeInfo.isSome then b.fullname else "") with
       | .error e => throwV e
       | .ok (_, q) => pure (if q != "" then q else b.fullname)
     else pure b.fullname : V String)
